@@ -1299,7 +1299,8 @@ def type_tables(jobs):
                     srow.append("ERR:" + type(e).__name__)
             rec = {"order": orow, "subtt": srow}
             # the same type written twice (two annotations) is the same type
-            if T[i - 1]["k"] != "dep":
+            if True:
+                # (a Dependent written twice with the same condition function included)
                 try:
                     tw = R.real_twin(T, i)
                     rec["twin"] = [typeorder(a, tw).name, typeorder(tw, a).name]
